@@ -80,6 +80,18 @@ def _objects():
                              kernel_regularizer=('torsion', 0.5, 0.25), average_outputs=False)),
       ('RTL#kfl', lambda: RL.RTL(num_lattices=2, lattice_rank=2, parameterization='kronecker_factored', num_terms=3,
                                  kernel_initializer='kfl_random_monotonic_initializer', average_outputs=True, random_seed=3)),
+      # layers given initializer / regularizer *objects* with non-default settings (nested serialised objects)
+      ('KFL#init-object', lambda: KL.KroneckerFactoredLattice(lattice_sizes=2, units=1, num_terms=2, monotonicities=['increasing', 'none', 'increasing'],
+                                                              kernel_initializer=KL.KFLRandomMonotonicInitializer(monotonicities=[1, 0, 0], init_min=2.0, init_max=3.0, seed=7),
+                                                              scale_initializer=KL.ScaleInitializer(output_min=-1.0, output_max=3.0))),
+      ('Lattice#init-object', lambda: LL.Lattice(lattice_sizes=[3, 2], monotonicities=[1, 0], output_min=0.0, output_max=1.0,
+                                                 kernel_initializer=LL.LinearInitializer(lattice_sizes=[3, 2], monotonicities=[0, 1], output_min=-2.0, output_max=5.0),
+                                                 kernel_regularizer=[LL.TorsionRegularizer(lattice_sizes=[3, 2], l1=0.5, l2=[0.25, 1.0])])),
+      ('Lattice#init-object2', lambda: LL.Lattice(lattice_sizes=[2, 2], monotonicities=[1, 1],
+                                                  kernel_initializer=LL.RandomMonotonicInitializer(lattice_sizes=[2, 2], output_min=3.0, output_max=4.0))),
+      ('PWLCalibration#init-object', lambda: PL.PWLCalibration(input_keypoints=[0.0, 1.0, 3.0], monotonicity=1, output_min=0.0, output_max=1.0,
+                                                               kernel_initializer=PL.UniformOutputInitializer(output_min=-3.0, output_max=7.0, monotonicity=-1),
+                                                               kernel_regularizer=PL.HessianRegularizer(l1=0.5, l2=0.25, is_cyclic=False))),
       ('ParallelCombination', lambda: _pc(PCL, PL, CL)),
       ('LatticeConstraints', lambda: LL.LatticeConstraints(lattice_sizes=[3, 3], monotonicities=[1, 1], unimodalities=None, edgeworth_trusts=[(0, 1, 1)],
                                                            trapezoid_trusts=[(0, 1, 1)], monotonic_dominances=[(0, 1)], range_dominances=[(0, 1)],
